@@ -86,4 +86,23 @@ theorem abor_waits_for_the_command_before_it (evs : List Model.Dispatch.Ev) :
     (Model.Dispatch.runNow evs).started ++ (Model.Dispatch.runNow evs).backlog = (Model.Dispatch.runNow evs).received :=
   ⟨(C05.pipelined_commands_handled_in_order evs).1, (C05.pipelined_commands_handled_in_order evs).2.1⟩
 
+/-! ### ABOR with nothing to abort is only an answer -/
+
+/-- **fact_abor_touches_only_workers**: as regenerated from `server.py`, `Server.abor` reads and writes nothing of
+    the session but `extra_workers` and `response` -/
+theorem fact_abor_touches_only_workers : Generated.aborTouchesOnlyWorkers = true := by decide
+
+open Model.Session in
+/-- **idle_abor_is_only_an_answer**: in the sequential model (no worker runs between two commands) ABOR is answered
+    226 and leaves the tree and EVERY field of the session as they were - in particular a data connection the
+    client has made and not used yet, the passive listener, the working directory, the login and a pending rename;
+    the transfer that follows finds them -/
+theorem idle_abor_is_only_an_answer (cfg : Cfg) (w : World) (s : SState) (rest : Py.Str) (arg : PPath) (payload : Bytes) :
+    body cfg w s .abor rest arg payload = (w, s, { replies := [226] }) := by
+  simp [body]
+
+open Model.Session in
+example : (body ⟨[], none, false⟩ ⟨[], none, []⟩ { user := some 0, logged := true, passive := true, dataConn := true } .abor [] ⟨1, []⟩ []).2.1.dataConn = true := by
+  simp [body]
+
 end C14
